@@ -16,3 +16,28 @@ func VerifURLHasError(t URL) bool { return t.flag&isErrorInURL != 0 }
 
 // VerifParseErrorKind returns the internal kind of a parse error token.
 func VerifParseErrorKind(t ParseError) byte { return t.kind }
+
+// VerifSerializeCompound serializes a rule or declaration with the package's own
+// (unexported) serializer; ok is false for compounds that have none.
+func VerifSerializeCompound(c Compound) (s string, ok bool) {
+	var w verifBuilder
+	switch t := c.(type) {
+	case QualifiedRule:
+		t.serializeTo(&w)
+	case AtRule:
+		t.serializeTo(&w)
+	case Declaration:
+		t.serializeTo(&w)
+	case Whitespace:
+		t.serializeTo(&w)
+	case Comment:
+		t.serializeTo(&w)
+	default:
+		return "", false
+	}
+	return string(w), true
+}
+
+type verifBuilder []byte
+
+func (b *verifBuilder) WriteString(s string) (int, error) { *b = append(*b, s...); return len(s), nil }
